@@ -100,7 +100,9 @@ def mqvS (E : Env G) (u d t : Nat) : Nat :=
 def baseX (E : Env G) : Nat := match E.xy E.base with | some b => b.1 | none => 0
 
 /-- `K <- s(V - (2^l + t)Q), K == O ⇒ K <- G`, as bakeBMQVStep3/4 compute it: ecMulA (t with the top
-word 1), ecpSubAA (FALSE ⇒ the base point), ecMulA (FALSE ⇒ ERR_BAD_PARAMS).  Result: `<K>_2l`. -/
+word 1; FALSE ⇒ ERR_BAD_PARAMS), then `!ecpSubAA(…) || !ecMulA(…, s, …)` ⇒ the base point (the
+difference is O, or the scalar s is 0 modulo q: repaired by docs/C04.fix-1.diff — before, the second
+case returned ERR_BAD_PARAMS on honest runs).  Result: `<K>_2l`. -/
 def mqvK (E : Env G) (V Q : G) (t s : Nat) : Except Err Bytes :=
   match E.xy (E.smul (t + 2 ^ E.l) Q) with
   | none => .error ERR_BAD_PARAMS
@@ -110,7 +112,7 @@ def mqvK (E : Env G) (V Q : G) (t s : Nat) : Except Err Bytes :=
     | none => .ok (natLE E.no (baseX E))
     | some _ =>
       match E.xy (E.smul s D) with
-      | none => .error ERR_BAD_PARAMS
+      | none => .ok (natLE E.no (baseX E))
       | some K => .ok (natLE E.no K.1)
 
 /-- `s·G + (2^l + t)·Q` by ecAddMulA (FALSE for O), `t1` = t with the top word already set -/
